@@ -270,7 +270,9 @@ impl<A: ArenaX> Inst<A> {
       None => (-1, -1),
     };
     let mem0 = self.mem();
-    if !nofill {
+    // a handle that reaches beyond the arena is logged as it is but never written through
+    let inside = m[2] + m[3] <= self.a().capacity() as u64;
+    if !nofill && inside {
       h.fill(pattern(id));
     }
     let owned = h.is_owned();
